@@ -695,6 +695,17 @@ func (env *specEnv) evalCall(x *SCall) TV {
 		argn(1)
 		a := env.eval(x.Args[0])
 		return TV{T: fmt.Sprintf("(and (> %s 0) (< %s %s))", refOf(a), refOf(a), env.st.alloc), Sort: "Bool"}
+	case "incase": // incase("text"): the point of evaluation lies in the switch arm whose case list is text
+		argn(1)
+		ts, ok := x.Args[0].(*SStr)
+		if !ok || env.fr == nil {
+			env.fail("incase needs a string")
+		}
+		cs := strings.Join(strings.Fields(env.fr.anchorText(env.fr.evalPos, "case")), "")
+		if cs == strings.Join(strings.Fields(ts.V), "") {
+			return TV{T: "true", Sort: "Bool"}
+		}
+		return TV{T: "false", Sort: "Bool"}
 	case "addrof": // addrof(x): the address of the local variable x (a variable whose address is taken in the body)
 		argn(1)
 		id, ok := x.Args[0].(*SIdent)
